@@ -35,7 +35,7 @@ def anchored_codes():
               'clean_up'):
         add(S.FileSession, n, 'FileSession.' + n)
     if hasattr(S, 'MemcachedSession'):
-        for n in ('_exists', '_load', '_save', '_delete', 'acquire_lock', 'release_lock'):
+        for n in ('setup', '_exists', '_load', '_save', '_delete', 'acquire_lock', 'release_lock'):
             add(S.MemcachedSession, n, 'MemcachedSession.' + n)
     for n in ('save', 'close'):
         add(S, n, 'sessions.' + n)
